@@ -270,6 +270,8 @@ def dump_func_for_dataclass(cls: Type['E'],
 
                 elif has_catch_all and catch_all_field == field:
                     if field in field_to_default:
+                        # the default may not be bound yet (`Meta.skip_defaults_if`)
+                        _locals[default_value] = field_to_default[field]
                         field_assignments.append(f"if o.{field} != {default_value} and not {skip_field}:")
                     else:
                         field_assignments.append(f"if not {skip_field}:")
